@@ -103,6 +103,52 @@ pub fn k20_2_reader_window<S: Src>(s: &mut S) {
     }
 }
 
+// ---- K20.5 buffer compaction: the unread remainder moves to the front unchanged -----------------
+/// `append_next_buf` first moves the unread bytes [start, end) to the front of the buffer, then appends the next chunk behind
+/// them. For every buffer content, every read position and every next chunk (length 0..=4): afterwards the buffer holds
+/// exactly old[start..] ++ chunk - whatever the relation between the bytes already consumed and the bytes still unread.
+pub fn k20_5_compaction<S: Src>(s: &mut S) {
+    const B: usize = 8;
+    let mut old = [0u8; B];
+    let mut i = 0;
+    while i < B {
+        old[i] = s.u8();
+        i += 1;
+    }
+    let start = s.u8() as usize;
+    s.assume(start <= B);
+    let mut chunk = [0u8; 4];
+    i = 0;
+    while i < 4 {
+        chunk[i] = s.u8();
+        i += 1;
+    }
+    let clen = s.u8() as usize;
+    s.assume(clen <= 4 && clen <= start);
+    let mut v = Vec::with_capacity(B);
+    i = 0;
+    while i < B {
+        v.push(old[i]);
+        i += 1;
+    }
+    let mut r = MessageBufReader::new_with_data(v, start);
+    r.append_next_buf(&chunk[..clen]);
+    let rest = B - start;
+    vcover!(s, start > 0 && rest > start, "unread remainder longer than the consumed prefix");
+    vcover!(s, start > 0 && rest > 0 && rest <= start, "unread remainder not longer than the consumed prefix");
+    vcover!(s, start == 0, "nothing consumed");
+    i = 0;
+    while i < B {
+        if i < rest {
+            vcheck!(s, r.buf[i] == old[start + i], "buffer compaction changes the unread remainder of the stream");
+        } else if i < rest + clen {
+            vcheck!(s, r.buf[i] == chunk[i - rest], "the next chunk is not appended right behind the unread remainder");
+        }
+        i += 1;
+    }
+    std::mem::forget(r);
+}
+
 // ---- reference decoder -------------------------------------------------------------------------
 pub const MAXREC: usize = 6;
 
@@ -296,6 +342,7 @@ mod proofs {
     p!(k20_1b_roundtrip, 11);
     p!(k20_1c_offset, 11);
     p!(k20_2_reader_window, 12);
+    p!(k20_5_compaction, 10);
     p!(k20_3_drain_n8_c4_b8, 10);
     p!(k20_3_drain_n8_c4_b4, 10);
     p!(k20_3_drain_n9_c3_b4, 11);
@@ -311,6 +358,7 @@ pub fn replay(name: &str, s: &mut RSrc) -> bool {
         "k20_1b_roundtrip" => k20_1b_roundtrip(s),
         "k20_1c_offset" => k20_1c_offset(s),
         "k20_2_reader_window" => k20_2_reader_window(s),
+        "k20_5_compaction" => k20_5_compaction(s),
         "k20_3_drain_n8_c4_b8" => k20_3_drain_n8_c4_b8(s),
         "k20_3_drain_n8_c4_b4" => k20_3_drain_n8_c4_b4(s),
         "k20_3_drain_n9_c3_b4" => k20_3_drain_n9_c3_b4(s),
